@@ -14,7 +14,7 @@ import collections
 
 import numpy as np
 
-Problem = collections.namedtuple('Problem', 'field index value why')
+Problem = collections.namedtuple('Problem', 'field index value why kind num', defaults=('special', 0))
 # kind: 'id' (value in [lo, target)), 'adrnum' (adr, num arrays; range inside [0, target)), 'rows' (sparse rows),
 #       'name' (address into names), 'special'
 Rel = collections.namedtuple('Rel', 'field kind target lo num extra')
@@ -94,7 +94,17 @@ SPECIAL = ['jnt_type', 'jnt_qposadr', 'jnt_dofadr', 'geom_type', 'geom_condim', 
            'mesh_facetexcoord', 'D_diag', 'actuator_historyadr', 'sensor_historyadr']
 
 
+_REL_CACHE = {}
+
+
 def relations(lib):
+  key = id(lib)
+  if key not in _REL_CACHE:
+    _REL_CACHE[key] = _relations(lib)
+  return _REL_CACHE[key]
+
+
+def _relations(lib):
   out = []
   have = set(lib.model_fields)
   sizes = set(lib.model_sizes)
@@ -143,8 +153,8 @@ def check(lib, m, fields=None, limit=8):
   def want(f):
     return fields is None or f in fields
 
-  def add(f, idx, val, why):
-    out.append(Problem(f, int(idx), int(val), why))
+  def add(f, idx, val, why, kind='special', num=0):
+    out.append(Problem(f, int(idx), int(val), why, kind, int(num)))
 
   for r in relations(lib):
     if len(out) >= limit:
@@ -157,7 +167,7 @@ def check(lib, m, fields=None, limit=8):
       n = int(getattr(m, r.target))
       i = _first_bad((a < r.lo) | (a >= n))
       if i is not None:
-        add(f, i, a.ravel()[i], 'id not in [%d, %s=%d)' % (r.lo, r.target, n))
+        add(f, i, a.ravel()[i], 'id not in [%d, %s=%d)' % (r.lo, r.target, n), 'id')
     elif r.kind == 'adrnum':
       a = np.asarray(getattr(m, f)).astype(np.int64).ravel()
       k = np.asarray(getattr(m, r.num)).astype(np.int64).ravel()
@@ -166,17 +176,17 @@ def check(lib, m, fields=None, limit=8):
         continue
       i = _first_bad(k < 0)
       if i is not None:
-        add(r.num, i, k[i], 'negative count')
+        add(r.num, i, k[i], 'negative count', 'num')
         continue
       i = _first_bad((k > 0) & ((a < 0) | (a + k > n)))
       if i is not None:
-        add(f, i, a[i], 'range [adr, adr+%d) not inside [0, %s=%d)' % (k[i], r.target, n))
+        add(f, i, a[i], 'range [adr, adr+%d) not inside [0, %s=%d)' % (k[i], r.target, n), 'adr', k[i])
     elif r.kind == 'name':
       a = np.asarray(getattr(m, f)).astype(np.int64)
       n = int(m.nnames)
       i = _first_bad((a < 0) | (a >= n))
       if i is not None:
-        add(f, i, a.ravel()[i], 'name address not in [0, nnames=%d)' % n)
+        add(f, i, a.ravel()[i], 'name address not in [0, nnames=%d)' % n, 'name')
   if len(out) >= limit:
     return out
 
